@@ -436,6 +436,12 @@ var trafficSets = []*ConvSet{
 		// one more single-datagram flow in front of the filler: 1 + 11111*9 = 100000 packets of complete conversations
 		return append(append([]ConvSpec{cs[0]}, udp("v", "10.0.1.3", 5357, "10.0.1.2", 53, cm("pad"))), cs[1:]...)
 	}()},
+	// the observed connection is open without payload when the snapshot is written: only its handshake
+	// (only its SYN) lies before the filler, request, response and close follow in the next capture
+	{Name: "snap-handshake", Huge: true, Step: time.Millisecond, Interleaves: []string{"wrap:3"}, Convs: withFiller(
+		tcp("t", "10.0.0.1", 40000, "10.0.0.2", 80, 1000, 5000, "fin-c", cm("GET"), sm("resp"), cm("ok")))},
+	{Name: "snap-syn-only", Huge: true, Step: time.Millisecond, Interleaves: []string{"wrap:1"}, Convs: withFiller(
+		tcp("t", "10.0.0.1", 40000, "10.0.0.2", 80, 1000, 5000, "fin-c", cm("GET"), sm("resp"), cm("ok")))},
 	{Name: "snap-udp-mid", Huge: true, Step: time.Millisecond, Interleaves: []string{"wrap:2"}, Convs: withFiller(
 		udp("u", "10.0.1.1", 5353, "10.0.1.2", 53, cm("qry"), sm("answ"), cm("q2"), sm("a2")))},
 }
